@@ -168,3 +168,24 @@ outer:
 	}
 	return out
 }
+
+// defer inside range-over-func bodies of a function that has no defer statement of its own: the deferred
+// calls are pushed onto the enclosing function's defer stack and must run when it returns
+func RangeFuncDeferOnly(n int) int {
+	for v := range seq(n + 1) {
+		defer emitI(v)
+	}
+	return n
+}
+
+func RangeFuncDeferNested(n int) (r int) {
+	for v := range seq(2) {
+		for w := range seq(n) {
+			if w == 1 {
+				continue
+			}
+			defer func() { r += v*10 + w; emitI(r) }()
+		}
+	}
+	return 1
+}
